@@ -48,6 +48,13 @@ def op_name(P, k, pc):
 
 
 YIELDING_OPS = {"yield", "park", "fyield"}
+# the tokio replacements call thread::yield_now() internally (every oneshot operation starts with one, Notify and
+# watch are built on oneshot / the tokio RwLock): their operations are explicit yield requests as well
+MAY_YIELD_PREFIXES = ("os_", "n_", "w_", "t", "select")
+
+
+def requests_yield(name):
+    return name in YIELDING_OPS or name.startswith(MAY_YIELD_PREFIXES)
 
 
 def o_contract(prog, lines):
@@ -97,7 +104,7 @@ def o_contract(prog, lines):
                     bad.append((f"task {tid} ran user code although the last decision chose {last_choice}", "C08:chosen-runs"))
                 if len(t) >= 5:
                     name = op_name(P, t[2], t[3])
-                    if pending_y.pop(tid, None) and name not in YIELDING_OPS:
+                    if pending_y.pop(tid, None) and not requests_yield(name):
                         bad.append((f"yielding flag was set for task {tid} whose operation was `{name}`, not a yield request", "C08:yield-flag"))
                     if name in ("yield", "fyield") and False:
                         pass
